@@ -14,6 +14,7 @@ from ..kernel import HarnessError
 from ..space import docs
 
 PID = "C09"
+ISOLATE = True  # every case (history) in its own forked process, from the same never-executed generator state
 LEVEL = "model_checking"
 RULE = ("(a) every representative document x PYTHONHASHSEED in {0,1,2[,seed-derived]} x {fresh process, process that generated two other documents first} x 2 output "
         "roots x 2 clocks, each in its own interpreter process: all file trees byte-identical; (b) explicit-state BFS over histories of depth<=3 per layout {embedded core, "
@@ -160,9 +161,11 @@ def apply_event(ev, root, lay, add, hist):
     name = ev[4:].split(",")[0].rstrip(")")
     force = "force" in ev
     doc = spec(name)
+    # one spec file per project, edited in place between generations (same path, new content), as users do
+    SPEC = os.path.join(os.path.dirname(os.path.dirname(root)), "user-spec", "openapi.json")
     label = " ; ".join(hist + [ev])
     if force:
-        files, err = sandbox.generate(doc, root, output_package=out_pkg, core_package=core_pkg, force=True, spec_name=f"{name.replace('+', 'p')}.json")
+        files, err = sandbox.generate(doc, root, output_package=out_pkg, core_package=core_pkg, force=True, spec_path=SPEC)
         if err is not None:
             add("force", f"forced generation failed: {type(err).__name__}", f"{str(err)[:150]} | {label}", label)
             return
@@ -170,7 +173,7 @@ def apply_event(ev, root, lay, add, hist):
         if other is None:
             fresh = root + "-fresh"
             shutil.rmtree(fresh, ignore_errors=True)
-            f2, e2 = sandbox.generate(doc, fresh, output_package=out_pkg, core_package=core_pkg, force=True, spec_name=f"{name.replace('+', 'p')}.json")
+            f2, e2 = sandbox.generate(doc, fresh, output_package=out_pkg, core_package=core_pkg, force=True, spec_path=SPEC)
             a = {k: v[2] for k, v in sub_snapshot(root, pkgs, False).items()}
             b = {k: v[2] for k, v in sub_snapshot(fresh, pkgs, False).items()}
             shutil.rmtree(fresh, ignore_errors=True)
@@ -179,19 +182,19 @@ def apply_event(ev, root, lay, add, hist):
                 add("prior-runs", "forced generation depends on what was generated before", f"{diff[:4]} | {label}", label)
         return
     if not os.path.isdir(od):
-        sandbox.generate(doc, root, output_package=out_pkg, core_package=core_pkg, force=False, spec_name=f"{name.replace('+', 'p')}.json")
+        sandbox.generate(doc, root, output_package=out_pkg, core_package=core_pkg, force=False, spec_path=SPEC)
         return
     # non-force over an existing package: differential oracle against a forced run on a copy
     ref = root + "-ref"
     shutil.rmtree(ref, ignore_errors=True)
     shutil.copytree(root, ref, symlinks=True)
-    rf, rerr = sandbox.generate(doc, ref, output_package=out_pkg, core_package=core_pkg, force=True, spec_name=f"{name.replace('+', 'p')}.json")
+    rf, rerr = sandbox.generate(doc, ref, output_package=out_pkg, core_package=core_pkg, force=True, spec_path=SPEC)
     before = sub_snapshot(root, pkgs)
     want = {k: v[2] for k, v in sub_snapshot(ref, pkgs, False).items() if v[0] == "f"}
     have = {k: v[2] for k, v in before.items() if v[0] == "f"}
     shutil.rmtree(ref, ignore_errors=True)
     up_to_date = rerr is None and want == have
-    files, err = sandbox.generate(doc, root, output_package=out_pkg, core_package=core_pkg, force=False, spec_name=f"{name.replace('+', 'p')}.json")
+    files, err = sandbox.generate(doc, root, output_package=out_pkg, core_package=core_pkg, force=False, spec_path=SPEC)
     after = sub_snapshot(root, pkgs)
     if after != before:
         changed = sorted(k for k in set(after) | set(before) if after.get(k) != before.get(k))
